@@ -37,6 +37,11 @@ def check(repo: Repo) -> Result:
     apply_idiom(repo, res)
     mirror(repo, res)
     em_table(repo, res)
+    from rules import c08
+    from rules.common import share
+
+    r5 = res.rule("C03-R5", "units obtained by unit arithmetic keep the zero point of an offset scale (identity / inverse laws for degC built as 1 * degC)", floor=2)
+    share(res, r5, "C08", lambda t: c08.refusal(repo, t), ["C08-R2"], want=lambda k: k.endswith(":surviving-offset"), min_keys=2)
     return res
 
 
@@ -337,4 +342,5 @@ MUTANTS = [
     Mutant("em-two-sided-slip", UO, None, "0.1 * speed_of_light_cm_per_s),\n    (\"statC\"", "0.01 * speed_of_light_cm_per_s),\n    (\"statC\"", ("C03-R4",)),
     Mutant("twin-keyword-form", ARR, "unyt_array.in_cgs", 'return self.in_base("cgs")', 'return self.in_base(unit_system="cgs")', (), benign=True),
     Mutant("base-equivalent-foreign-registry", UO, "Unit.get_base_equivalent", "        return Unit(new_units, registry=self.registry)", "        return new_units", ("C03-R1",)),
+    Mutant("mul-offset-from-dimensionless-side", UO, "Unit.__mul__", "            if u.dimensions in (temperature, angle) and self.is_dimensionless:\n                base_offset = u.base_offset", "            if u.dimensions in (temperature, angle) and self.is_dimensionless:\n                base_offset = self.base_offset", ("C03-R5",)),
 ]
